@@ -151,10 +151,28 @@ def rho_of(classes, coords):
     return LIB.sqrt(x * x + y * y)
 
 
+def vkey(v):
+    if isinstance(v, A):
+        return ("A",) + v.key()
+    if isinstance(v, Ang):
+        return ("Ang",) + v.c.key() + v.s.key()
+    if isinstance(v, Lg):
+        return ("Lg",) + tuple(sorted((str(q),) + p.key() for q, p in v.terms))
+    return ("py", repr(v))
+
+
 def view(classes, coords):
-    """stored coordinates -> Cartesian components [X, Y, (Z), (T)] as Alg values"""
+    """stored coordinates -> Cartesian components [X, Y, (Z), (T)] as Alg values.
+    Coordinates that were handed out by a callee's contract (modular.encode) carry that contract's postcondition
+    `view(result) == cart`; it is used directly instead of being re-derived from the encoded coordinates."""
     az = classes[0]
-    if az is AzimuthalXY:
+    cache = getattr(S.CTX, "viewcache", None)
+    k2 = None
+    if cache is not None and az is AzimuthalRhoPhi:
+        k2 = ("az", vkey(coords[0]), vkey(coords[1]))
+    if k2 is not None and k2 in cache:
+        X, Y = cache[k2]
+    elif az is AzimuthalXY:
         X, Y = A.of(coords[0]), A.of(coords[1])
     else:
         rho, phi = coords[0], coords[1]
@@ -162,7 +180,12 @@ def view(classes, coords):
     out = [X, Y]
     if len(classes) >= 2:
         l = classes[1]
-        if l is LongitudinalZ:
+        k3 = None
+        if cache is not None and l is not LongitudinalZ:
+            k3 = ("lo", SHORT[az], SHORT[l], vkey(coords[0]), vkey(coords[1]), vkey(coords[2]))
+        if k3 is not None and k3 in cache:
+            Z = cache[k3]
+        elif l is LongitudinalZ:
             Z = A.of(coords[2])
         else:
             rho = rho_of(classes, coords)
